@@ -131,9 +131,12 @@ class Scope(object):
 
   @property
   def referenced(self):
+    # Names that are only written count as well: this set is what generated
+    # symbols must avoid.
+    names = self.read | self.modified | self.bound
     if self.parent is not None:
-      return self.read | self.parent.referenced
-    return self.read
+      return names | self.parent.referenced
+    return names
 
   @property
   def free_vars(self):
